@@ -191,11 +191,11 @@ impl<'a, D: DependencyProvider> Encoder<'a, D> {
 
         // Add clauses for externally excluded candidates.
         for &(solvable, reason) in &package_candidates.excluded {
-            let variable = self.add_exclusion_clause(solvable.into(), reason);
-            debug_assert!(
-                self.state.decision_tracker.assigned_value(variable) != Some(true),
-                "it cannot be possible that the excluded candidate is already uninstallable"
-            )
+            // Note that the excluded candidate may already have been selected: a solvable
+            // that was requested directly (a soft requirement) is only subject to the
+            // exclusions of its package once that package is requested by a version set.
+            // `add_exclusion_clause` reports the clause as conflicting in that case.
+            self.add_exclusion_clause(solvable.into(), reason);
         }
     }
 
